@@ -132,18 +132,6 @@ theorem GoodMsg_mono (c : Cfg) (a b w : Nat) (m : Msg) (hab : a ≤ b) (h : Good
   | stop => trivial
   | resume => exact h
 
-theorem pushMsg_get (ws : List Worker) (w w' : Nat) (m : Msg) (k : Worker) (h : (pushMsg ws w m)[w']? = some k) :
-    ∃ k0, ws[w']? = some k0 ∧ k.pos = k0.pos ∧ k.iterEnd = k0.iterEnd ∧ k.alive = k0.alive ∧
-      k.q = if w = w' then k0.q ++ [m] else k0.q := by
-  simp only [pushMsg, List.getElem?_modify] at h
-  cases hk : ws[w']? with
-  | none => simp [hk] at h
-  | some k0 =>
-    simp only [hk, Option.map_eq_map, Option.map_some, Option.some.injEq] at h
-    refine ⟨k0, rfl, ?_⟩
-    subst h
-    by_cases hw : w = w' <;> simp [hw]
-
 theorem MidM_tryPut (c : Cfg) (s : State) (hv : c.Valid) (hm : c.iterable = false) (hio : c.inOrder = true)
     (h : MidM c s) :
     MidM c (tryPut c s) ∧ ((tryPut c s).sendIdx = c.batches.length ∨ s.sendIdx < (tryPut c s).sendIdx) := by
